@@ -849,8 +849,17 @@ class FuncRenderer:
             return out[0]
         return S('multi', items=out)
 
+    def uniq(self, name):
+        used = {p[1] for p in self.f.params} | {l[1] for l in self.f.locals}
+        if name not in used:
+            return name
+        k = 2
+        while '%s__%d' % (name, k) in used:
+            k += 1
+        return '%s__%d' % (name, k)
+
     def vardecl(self, c):
-        name = c['name']
+        name = self.uniq(c['name'])
         t = qt(c)
         tb = strip_cv(t.replace('&', ''))
         if self.T.is_ostream(t) or (self.T.is_string(t) and not self.T.is_ref(t)):
@@ -1052,7 +1061,7 @@ class FuncRenderer:
         cont = self.expr(inner(rng)[0])
         ct = strip_cv(qt(inner(rng)[0]).replace('&', ''))
         idx = self.fresh('bx_i')
-        lv_name = loopvar['name']
+        lv_name = self.uniq(loopvar['name'])
         lv_t = qt(loopvar)
         self.localids[loopvar['id']] = (lv_name, lv_t, 'local')
         m = re.match(r'^(.*)\[(\d+)\]$', ct)
